@@ -5,6 +5,7 @@ mod prog;
 mod refsem;
 mod runner;
 mod scene;
+mod treecmp;
 
 mod c01;
 mod c02;
